@@ -1140,3 +1140,63 @@ def bessel(c, kind="J", nu=1):
     f = Coefficient(V)
     fn = {"J": ufl.bessel_J, "Y": ufl.bessel_Y, "I": ufl.bessel_I, "K": ufl.bessel_K}[kind]
     return fn(nu, 1.5 + 0.5 * f) * v * dx
+
+
+# ============================================================================ C19 builders
+@builder
+def two_rules(c, r1=("default", 2), r2=("default", 3), itype="cell"):
+    """Two integrals with different rules over the same subdomain sharing a coefficient (names embed the rule ids)."""
+    V = c.V("Lagrange", 1)
+    f = Coefficient(V)
+    v = TestFunction(V)
+    def md(r):
+        m = {"quadrature_degree": int(r[1])}
+        if r[0] != "default":
+            m["quadrature_rule"] = r[0]
+        return m
+    return f * v * measure(itype, metadata=md(r1)) + f * f * v * measure(itype, metadata=md(r2))
+
+
+@builder
+def unsupported(c, which="zero"):
+    V = c.V("Lagrange", 1)
+    u, v = TrialFunction(V), TestFunction(V)
+    f = Coefficient(V)
+    if which == "zero":
+        return ufl.Form([])
+    if which == "custom_integral":
+        return f * v * ufl.Measure("custom", domain=c.mesh)
+    if which == "cutcell_integral":
+        return f * v * ufl.Measure("cutcell", domain=c.mesh)
+    if which == "vertex_discontinuous":
+        W = c.V("DG", 1)
+        return Coefficient(W) * v * ufl.dP
+    if which == "negative_id":
+        return f * v * dx(-3)
+    if which == "facet_normal_on_prism":
+        return inner(c.n, grad(v)) * ds
+    if which == "interior_facet_on_prism":
+        return avg(f) * jump(v) * dS
+    if which == "cell_volume_nonaffine":
+        return CellVolume(c.mesh) * v * dx
+    if which == "circumradius_nonaffine":
+        return Circumradius(c.mesh) * v * dx
+    if which == "bessel_I":
+        return ufl.bessel_I(1, 1.5 + f) * v * dx
+    if which == "three_arguments":
+        w3 = ufl.Argument(V, 2)
+        return u * v * w3 * dx
+    if which == "nonlinear_in_argument":
+        return u * u * v * dx
+    if which == "expression_two_arguments":
+        return (u * v, _ref_points(c.cell, "interior", 2))
+    if which == "different_argument_spaces_diagonal":
+        return inner(TrialFunction(c.V("Lagrange", 2)), v) * dx
+    if which == "cell_avg":
+        return ufl.cell_avg(f) * v * dx
+    if which == "facet_avg":
+        return ufl.facet_avg(f) * v * ds
+    if which == "mixed_real":
+        W = c.space(basix.ufl.mixed_element([c.el("Lagrange", 1), basix.ufl.real_element(c.cell, ())]))
+        return inner(TrialFunction(W), TestFunction(W)) * dx
+    raise ValueError(which)
